@@ -37,7 +37,7 @@ _rsm.RESET_HOOKS.append(_reset)
 
 TOTALITY = ("basic", "list", "strict", "title", "iso", "table", "isolist", "topmarks", "section")
 FLEXIBLE = ("basic", "list", "iso", "isolist", "table", "topmarks")
-ISOLATING = ("iso", "table", "isolist")
+ISOLATING = ("iso", "table", "isolist", "isomarks")
 
 
 def catalogue():
@@ -70,6 +70,9 @@ def catalogue():
         },
     )
     variant("isolist", {"list_item": {**base["list_item"], "isolating": True}})
+    # isolating container in a schema whose containers allow marks on their block children
+    variant("isomarks", {"iso": {"group": "block", "content": "block+", "isolating": True, "marks": "_"},
+                         "doc": {**base["doc"], "marks": "_"}, "blockquote": {**base["blockquote"], "marks": "_"}})
     # a container whose first child is fixed: it shares its first child type (heading) with
     # blockquote / doc at a different edge position of their expressions
     variant("section", {"section": {"group": "block", "content": "heading block*"}})
@@ -444,9 +447,15 @@ def mark_schema(rnd, tries=20):
             nodes["p%d" % j] = sp
         if rnd.random() < 0.5:
             nodes["q"] = {"content": "block+", "group": "block"}
-        if rnd.random() < 0.4:
-            # an inline node with content (atom, so that mark steps treat it like a leaf)
+        if rnd.random() < 0.55:
+            # an inline node with content (atom, so that mark steps treat it like a leaf); its own
+            # mark permissions may differ from those of the textblocks around it
             nodes["sa"] = {"inline": True, "group": "inline", "content": "text*", "atom": True}
+            r_ = rnd.random()
+            if r_ < 0.3:
+                nodes["sa"]["marks"] = "_"
+            elif r_ < 0.5:
+                nodes["sa"]["marks"] = rnd.choice(names)
         sc = _mk_sch({"nodes": nodes, "marks": marks}, "random")
         if sc is not None:
             return sc
